@@ -43,8 +43,9 @@ type Spec struct {
 	// OnState, if set, is called for every new state (after the oracles) inside the worker.
 	OnState func(w *World, hist []Op) *Violation
 	Workers int
-	Weight  int  // share of the time budget (default 1)
-	Strict  bool // SaveVersion on an existing version: also require the storage to be byte-identical afterwards
+	Weight  int            // share of the time budget (default 1)
+	KF      *KnownFindings // set by runSpecs: deviation oracles consult it to step over known findings inside a state
+	Strict  bool           // SaveVersion on an existing version: also require the storage to be byte-identical afterwards
 }
 
 type RunStats struct {
